@@ -1,5 +1,6 @@
 // C08 prelude (hand-written): lexer state skeleton stubs, string wrappers, position specification.
 use vstd::prelude::*;
+use core::cmp::Ordering;
 
 verus! {
 
@@ -27,6 +28,9 @@ pub type LexResult<T> = Result<T, LexError>;
 #[verifier::external_body]
 fn ext_lex_error() -> LexError { unimplemented!() }
 
+// @trusted: R3 message text (format!/switch_lang!/literal.into()) is opaque
+#[verifier::external_body]
+fn ext_msg() -> Opaque { unimplemented!() }
 // @trusted: CacheSet<str>::get interns the text: the result has the same chars
 #[verifier::external_body]
 fn w_cache_get(cache: &Opaque, cont: &str) -> (r: Str) ensures r@ == cont@ { unimplemented!() }
@@ -75,21 +79,34 @@ fn w_get_copied(v: &Vec<char>, i: usize) -> (r: Option<char>)
 { v.get(i).copied() }
 
 // ---- specification: lexer representation and the position invariant ---------------------------------
-/// representation invariant: the cursor is at most one past the end (consume() at end of input still advances it),
-/// the line start is behind the cursor, the interpolation stack always has its `Not` bottom element, sizes fit the counters
+/// representation invariant: the interpolation stack always has its `Not` bottom element, the line start is behind the
+/// cursor, and the counters are bounded by what has been consumed (so that no `+= 1` can overflow). The cursor may run past the
+/// end of the text: `consume()` at end of input still advances it (once per end-of-input Dedent, see `next_inv`).
 pub open spec fn lexer_wf(l: Lexer) -> bool {
-    &&& l.chars@.len() <= 0x0FFF_FFFF
-    &&& l.cursor <= l.chars@.len() + 1
+    &&& l.chars@.len() <= 0x03FF_FFF0
+    &&& l.cursor <= 2 * l.chars@.len() + 4
     &&& l.line_start_cursor <= l.cursor
     &&& l.interpol_stack@.len() >= 1
     &&& l.interpol_stack@[0] is Not   // the bottom of the interpolation stack is the `Not` sentinel pushed by the constructors
     &&& l.lineno_token_starts <= l.cursor
+    &&& l.lineno_token_starts <= l.chars@.len()
+    &&& l.enclosure_level <= l.cursor
     &&& l.col_token_starts <= 0x7FFF_FFFF
+}
+/// no line break among the source chars at [a, b) (positions past the end of the text hold no char). Recursive instead of
+/// quantified: extending the range by one consumed char is one unfolding, which keeps every query small and stable.
+pub open spec fn no_nl(s: Seq<char>, a: int, b: int) -> bool
+    decreases b - a
+{
+    if b <= a { true } else { (b - 1 >= s.len() || s[b - 1] != '\n') && no_nl(s, a, b - 1) }
 }
 /// the recorded line start really is the start of the line the cursor is on
 pub open spec fn line_fresh(l: Lexer) -> bool {
     &&& (l.line_start_cursor == 0 || (l.line_start_cursor <= l.chars@.len() && l.chars@[l.line_start_cursor - 1] == '\n'))
-    &&& forall|k: int| l.line_start_cursor <= k < l.cursor && k < l.chars@.len() ==> l.chars@[k] != '\n'
+    &&& no_nl(l.chars@, l.line_start_cursor as int, l.cursor as int)
+}
+pub open spec fn line_start_ok(l: Lexer) -> bool {
+    l.line_start_cursor == 0 || (l.line_start_cursor <= l.chars@.len() && l.chars@[l.line_start_cursor - 1] == '\n')
 }
 /// the column of the next token is the number of source chars since the start of its line
 pub open spec fn pos_ok(l: Lexer) -> bool {
@@ -99,5 +116,138 @@ pub open spec fn pos_ok(l: Lexer) -> bool {
 pub open spec fn same_source(l: Lexer, o: Lexer) -> bool {
     l.chars@ == o.chars@ && l.indent_stack@ == o.indent_stack@ && l.enclosure_level == o.enclosure_level
 }
+
+
+// ---- specification of one step of the token iterator ------------------------------------------------
+pub open spec fn nl_or_dd(k: TokenKind) -> bool { k is Newline || k is Dedent }
+/// kinds that token lexers (strings, numbers, names, operators, brackets) emit: never a layout token
+pub open spec fn plain_kind(k: TokenKind) -> bool { !(k is Newline) && !(k is Dedent) && !(k is Indent) && !(k is EOF) && !(k is BOF) }
+
+/// invariant of the lexer between two calls of `next` (holds for the state the constructors build)
+pub open spec fn next_inv(l: Lexer) -> bool {
+    &&& lexer_wf(l)
+    &&& l.col_token_starts <= 2 * l.cursor                       // columns cannot overflow
+    &&& l.indent_stack@.len() <= l.lineno_token_starts           // at most one open indentation per line break
+    &&& (nl_or_dd(l.prev_token.kind) ==> l.indent_stack@.len() < l.lineno_token_starts)
+    &&& (nl_or_dd(l.prev_token.kind) ==> (l.col_token_starts == 0 || l.cursor > l.chars@.len()))
+    &&& (l.cursor <= l.chars@.len() + 1 || l.cursor + l.indent_stack@.len() <= 2 * l.chars@.len() + 3 + (if l.prev_token.kind is EOF { 1int } else { 0int }))
+}
+/// termination measure of the iteration: every `next` that yields an item decreases it
+pub open spec fn measure(l: Lexer) -> int { 2 * (2 * l.chars@.len() + 6 - l.cursor) + l.indent_stack@.len() }
+
+/// what one completed step (an item yielded by `next`) guarantees
+pub open spec fn step_ok(o: Lexer, f: Lexer, r: LexResult<Token>) -> bool {
+    &&& next_inv(f)
+    &&& f.chars@ == o.chars@
+    &&& measure(f) < measure(o)                                   // progress: the stream of items is finite
+    &&& (r matches Ok(t) ==> {
+        &&& f.prev_token.kind == t.kind
+        // indentation bookkeeping: Indent opens exactly one level, Dedent closes exactly one, nothing else touches the stack,
+        // and EOF is only produced when every level has been closed => an accepted text has as many Dedents as Indents
+        &&& (t.kind is Indent ==> f.indent_stack@.len() == o.indent_stack@.len() + 1)
+        &&& (t.kind is Dedent ==> f.indent_stack@.len() + 1 == o.indent_stack@.len())
+        &&& (!(t.kind is Indent) && !(t.kind is Dedent) ==> f.indent_stack@.len() == o.indent_stack@.len())
+        &&& (t.kind is EOF ==> f.indent_stack@.len() == 0)
+        // positions: inside the text, the column of the next token stays the number of source chars since its line start
+        &&& (pos_ok(o) && f.cursor <= f.chars@.len() ==> pos_ok(f))
+    })
+}
+
+// @trusted: derived PartialEq on the fieldless enum TokenKind is structural equality; stated only for the four kinds the contracts
+// test (a general `r == (a == b)` on the 100-variant enum made every query of the unit 5-8x more expensive)
+#[verifier::external_body]
+fn w_kind_eq(a: TokenKind, b: TokenKind) -> (r: bool)
+    ensures b is EOF ==> r == (a is EOF), b is BOF ==> r == (a is BOF), b is Newline ==> r == (a is Newline), b is Dedent ==> r == (a is Dedent),
+{ a == b }
+// @trusted: derived PartialEq on TokenCategory (result not used by any contract)
+#[verifier::external_body]
+fn w_cat_eq(a: TokenCategory, b: TokenCategory) -> (r: bool) { a == b }
+/// the state built by `Lexer::new` / `Lexer::from_str` (checked textually against the two constructors by the unit script)
+pub open spec fn initial_state(l: Lexer) -> bool {
+    &&& l.indent_stack@.len() == 0 && l.enclosure_level == 0 && l.cursor == 0 && l.prev_token.kind is BOF
+    &&& l.lineno_token_starts == 0 && l.col_token_starts == 0 && l.line_start_cursor == 0
+    &&& l.interpol_stack@.len() == 1 && l.interpol_stack@[0] is Not
+    &&& l.chars@.len() <= 0x03FF_FFF0     // texts above 2**26 - 16 chars are outside the claim
+}
+/// the iteration starts in a state that satisfies the invariant of `next` and has exact positions
+proof fn lemma_initial_state(l: Lexer)
+    requires initial_state(l)
+    ensures next_inv(l), pos_ok(l), measure(l) == 2 * (2 * l.chars@.len() + 6)
+{
+    reveal_with_fuel(no_nl, 2);
+}
+/// the measure is a natural number: with `step_ok` (strict decrease at every item) the token stream of `lex()` is finite,
+/// and it has at most `2 * (2 * len + 6)` items
+proof fn lemma_measure_nonneg(l: Lexer)
+    requires next_inv(l)
+    ensures measure(l) >= 0
+{
+}
+
+// @verified-in: the other arm-group copies of Lexer::next (R2c: every arm keeps its body in exactly one copy; elsewhere the path is cut)
+#[verifier::external_body]
+fn ext_other_copy() -> (r: Option<LexResult<Token>>) ensures false { unimplemented!() }
+// @trusted: char::is_ascii_digit
+#[verifier::external_body]
+fn w_is_ascii_digit(c: char) -> (r: bool) ensures r == ('0' <= c && c <= '9') { c.is_ascii_digit() }
+// @trusted: unicode_xid is_xid_start: a line break and a space are not identifier characters (UAX #31)
+#[verifier::external_body]
+fn w_is_xid_start(c: char) -> (r: bool) ensures r ==> (c != '\n' && c != ' ') { unimplemented!() }
+// @trusted: unicode_xid is_xid_continue: a line break and a space are not identifier characters (UAX #31)
+#[verifier::external_body]
+fn w_is_xid_continue(c: char) -> (r: bool) ensures r ==> (c != '\n' && c != ' ') { unimplemented!() }
+// @trusted: char::to_string is the one-char string
+#[verifier::external_body]
+fn w_char_to_string(c: char) -> (r: String) ensures r@ == seq![c] { c.to_string() }
+// @trusted: `s == "<literal>"` on a String: the result is not used by any contract (it only selects a branch)
+#[verifier::external_body]
+fn w_str_eq_lit(s: &String, lit: &str) -> (r: bool) { s == lit }
+// @trusted: str::starts_with(char): the result only selects IntLit/NatLit
+#[verifier::external_body]
+fn w_starts_with_char(s: &String, c: char) -> (r: bool) { s.starts_with(c) }
+// @trusted: Lexer::is_zero (str::replace): the result only selects IntLit/NatLit
+#[verifier::external_body]
+fn w_is_zero(s: &String) -> (r: bool) { unimplemented!() }
+// @trusted: String::len() in bytes equals the number of chars for a string of ASCII spaces
+#[verifier::external_body]
+fn w_spaces_len(s: &String) -> (r: usize)
+    requires forall|i: int| 0 <= i < s@.len() ==> s@[i] == ' '
+    ensures r == s@.len()
+{ s.len() }
+// @trusted: String::is_empty
+#[verifier::external_body]
+fn w_string_is_empty(s: &String) -> (r: bool) ensures r == (s@.len() == 0) { s.is_empty() }
+// @trusted: " ".repeat(n) has n chars
+#[verifier::external_body]
+fn w_repeat_space(n: usize) -> (r: String) ensures r@.len() == n { " ".repeat(n) }
+// @trusted: String + "<literal>": the length of the literal is computed by the rewriter
+#[verifier::external_body]
+fn w_concat_lit(s: String, lit: &str, Ghost(n): Ghost<nat>) -> (r: String) ensures r@.len() == s@.len() + n { s + lit }
+// @trusted: R9 a string literal passed as &str: its length in chars is computed from the literal by the rewriter
+#[verifier::external_body]
+fn w_lit(s: &'static str, Ghost(n): Ghost<nat>) -> (r: &'static str) ensures r@.len() == n { s }
+// @trusted: the keyword table of lex_symbol (`match &cont[..] { "and" => AndOp, ... _ => Symbol }`) is NOT verified (str patterns); every kind it can yield is a plain (non-layout) kind
+#[verifier::external_body]
+fn w_symbol_kind(cont: &String) -> (r: TokenKind) ensures plain_kind(r) { unimplemented!() }
+// @trusted: the fold over the indent stack in lex_indent_dedent (closure with captured mutable state; not expressible in Verus) is NOT verified: nothing is assumed about its two results except that the sum over an empty stack is the initial value 0
+#[verifier::external_body]
+fn w_fold_indents(stack: &Vec<usize>, spaces_len: usize) -> (r: (usize, bool)) ensures stack@.len() == 0 ==> r.0 == 0 { unimplemented!() }
+// @trusted: usize::cmp
+#[verifier::external_body]
+fn w_cmp_usize(a: usize, b: usize) -> (r: core::cmp::Ordering)
+    ensures (r is Less) == (a < b), (r is Equal) == (a == b), (r is Greater) == (a > b)
+{ a.cmp(&b) }
+// @trusted: usize::saturating_sub
+#[verifier::external_body]
+fn w_sat_sub(a: usize, b: usize) -> (r: usize) ensures r == (if a >= b { a - b } else { 0 }) { a.saturating_sub(b) }
+// @trusted: Lexer::is_definable_operator (match on str literals, NOT verified): the result only selects Symbol or an error; none of the listed operator texts contains a line break
+#[verifier::external_body]
+fn w_is_definable_operator(s: &String) -> (r: bool) ensures r ==> forall|i: int| 0 <= i < s@.len() ==> s@[i] != '\n' { unimplemented!() }
+// @trusted: String::insert(0, c) prepends one char
+#[verifier::external_body]
+fn w_insert_front(s: &mut String, c: char) ensures final(s)@.len() == old(s)@.len() + 1 { s.insert(0, c) }
+// @trusted: str::contains(char): the result only selects a hint text
+#[verifier::external_body]
+fn w_contains_char(s: &String, c: char) -> (r: bool) { s.contains(c) }
 
 } // verus!
